@@ -95,6 +95,71 @@ files = {
     "en m 3", "en m -4", "en m -5",
     "mnew mm h0 h0", log("mm", 0, "same child twice"),
  ],
+ "log.entrypoints.ops": [
+    "# all ten errs.Log* entry points, nil context, nil logger (default logger), plain / nil / typed-nil errors;",
+    "# Config.Normalize; a LevelVar shared by a handler family and changed between records",
+    "reset", "new h0 1 0 0", "wg h1 h0 " + hx("req"),
+ ] + [" ".join(["logx", api, c, lg, ek, h, "8", hx("boom"), s("k", "v")])
+      for api in ("Log", "LogContext", "LogTo", "LogContextTo", "LogWithLevel", "LogAttrs", "LogAttrsContext",
+                  "LogAttrsTo", "LogAttrsContextTo", "LogAttrsWithLevel")
+      for (c, lg, ek, h) in (("bg", "h", "e", "h0"), ("nil", "nil", "p", "h0"), ("bg", "h", "e", "h1"), ("bg", "nil", "n", "h0"),
+                             ("nil", "h", "t", "h1"))] + [
+    "logx LogWithLevel bg h e h0 -1 " + hx("below the level"), "logx LogAttrsWithLevel bg h p h0 0 " + hx("at the level"),
+    "norm nil 0 0", "norm tnil -1 1", "norm 4 -9223372036854775808 0", "norm var:-4 64 1", "norm 9223372036854775807 9223372036854775807 0",
+    "new h2 2 nil 0", "en h2 -1", "en h2 0", "new h3 3 tnil -5", "en h3 0", log("h3", 0, "negative depth is synchronous"),
+    "new h4 4 var:4 0", "wa h5 h4 " + s("a", "1"), "mnew m h5 h0", "en h5 3", "en m 3", "setlevel 4 -4", "en h5 3", "en h4 -4", "en h5 -5",
+    "logx LogAttrsWithLevel bg h e h5 -4 " + hx("enabled after setlevel"), "setlevel 4 9223372036854775807", "en h5 9223372036854775807",
+    "en h5 9223372036854775806", "en h4 -9223372036854775808", "setlevel 4 -9223372036854775808", "en h5 -9223372036854775808",
+    "new h6 5 -9223372036854775808 0", "en h6 9223372036854775807", "new h7 6 9223372036854775807 0", "en h7 -9223372036854775808", "en h7 9223372036854775807",
+    log("h0", 9223372036854775807, "extreme level tag"), log("h0", -9223372036854775808, "extreme level tag"), log("h0", 2147483648, "m"),
+ ],
+ "log.outcomes.ops": [
+    "# every kind of child outcome: fresh/sentinel/aggregate/typed-nil errors, panics with a string, an error, a runtime",
+    "# error, a typed nil pointer, nil, the child's own sentinel; records logged after the sink failed",
+    "reset", "new h0 1 0 0", "new h1 2 0 0", "new h2 3 0 0", "mnew m h0 h1 h2",
+ ] + [x for md in ("fail", "faile", "fails", "failm", "failn", "failf", "panic", "panice", "panicr", "panicp", "panicn", "panics")
+        for x in ("mode 2 " + md, log("m", 8, "middle child: " + md), log("h1", 8, "direct: " + md), "mode 2 ok",
+                  log("m", 8, "after " + md), log("h1", 8, "direct after " + md))] + [
+    "mode 1 failm", "mode 2 failm", "mode 3 fails", log("m", 8, "aggregates and a sentinel"), log("m", 8, "again"),
+    "mode 1 failn", "mode 2 failf", "mode 3 failn", log("m", 8, "only typed nils: nil result"),
+    "mode 1 panics", "mode 2 fails", "mode 3 panicn", log("m", 8, "panic with the sentinel, sentinel, panic(nil)"), log("m", 8, "again"),
+    "mnew big " + " ".join(["h0", "h1", "h2"] * 6), "mode 1 fails", "mode 2 failm", "mode 3 panicr", log("big", 8, "eighteen children"),
+    log("big", 8, "eighteen children again"), "mode 1 ok", "mode 2 ok", "mode 3 ok", log("big", 8, "all fine"),
+ ],
+ "log.emptygroups.ops": [
+    "# empty groups that reach the handler (WithAttrs, LogValuers) must leave no trace, whatever follows them",
+    "reset", "new h0 1 0 0",
+    "wa h1 h0 " + g("opt") + " " + s("k", "v"), log("h1", 0, "m", s("r", "1")),
+    "wa h2 h0 " + g("opt"), "wa h3 h2 " + s("k", "v"), "wg h4 h3 " + hx("ctx"), log("h4", 0, "m", s("x", "1")),
+    "logx LogAttrsTo bg h e h2 8 " + hx("stack still recognised after an elided group"),
+    log("h0", 0, "m", v(g("opt")), s("k", "v")),
+    log("h0", 0, "m", g("outer", v(g("opt")), s("k", "v")), s("top", "1")),
+    log("h0", 0, "m", g("outer", s("a", "1"), v(g("opt"))), s("top", "1")),
+    log("h0", 8, "m", v(g("opt")), k("stack_trace", "T", s("stack_trace", "fb"))),
+    "wa h5 h0 " + g("o1", g("o2")) + " " + v(g("o3")) + " " + E + " " + g("full", s("k", "v")) + " " + g("o4"), "wa h6 h5 " + g("o5"),
+    log("h6", 0, "m", s("last", "1")), log("h5", 0, "m"), log("h0", 0, "m"),
+ ],
+ "log.deeptree.ops": [
+    "# two siblings at every depth 1..9 of one chain, then every handler logs (backing-array capacity effects)",
+    "reset", "new h0 1 0 0",
+ ] + [x for dd in range(1, 10) for x in (
+        "wa a%d %s %s" % (dd, ("h0" if dd == 1 else "a%d" % (dd - 1)), s("a%d" % dd, "A")),
+        "wa b%d %s %s" % (dd, ("h0" if dd == 1 else "a%d" % (dd - 1)), s("b%d" % dd, "B")),
+        "wg c%d %s %s" % (dd, ("h0" if dd == 1 else "a%d" % (dd - 1)), hx("c%d" % dd)))] + [
+    x for dd in range(1, 10) for x in (log("a%d" % dd, 0, "a"), log("b%d" % dd, 0, "b"), log("c%d" % dd, 0, "c", i("n", dd)))] + [
+    log("h0", 0, "root"),
+ ],
+ "log.bufdepth1.ops": [
+    "# BufferDepth 1 and 2: fill to the limit and one beyond with records of different lengths, drain, regrow",
+    "reset", "new h0 1 0 1", "wa h1 h0 " + s("derived", "a long attribute value to make this record longer than the others"),
+    "hold 1", log("h0", 0, "short"), log("h1", 0, "a much longer record than the one before it"), "release 1",
+    "hold 1", log("h1", 0, "long first this time, and it is the one that must survive unchanged"), log("h0", 0, "s"), log("h0", 0, "t"), "release 1",
+    log("h0", 0, "free"), log("h1", 0, "free again"),
+    "new h2 2 0 2", "wg h3 h2 " + hx("g"),
+    "hold 2", log("h2", 0, "one"), log("h3", 0, "two, longer than one", s("k", "v")), log("h2", 0, "3"), "release 2",
+    "hold 2", "release 2", "hold 2", log("h3", 0, "after an empty round"), "release 2",
+    "mode 2 fail", log("h2", 0, "after the sink began to fail"), "mode 2 ok", log("h2", 0, "and recovered"),
+ ],
  "log.sentinel.ops": [
     "# a child that returns one long-lived *errs.Error: Handle's aggregate must be built beside it, never into it;",
     "# later records report only their own failures (defect shape: first failure kept as-is, later ones appended to it)",
